@@ -591,6 +591,8 @@ class Body:
             ops = tuple(self.term_of_operand(o, depth + 1, at) for o in r["ops"])
             if r["agg"] == "adt":
                 return ("adt", r["def"], r["vname"], tuple(r["fields"]), ops)
+            if r["agg"] == "closure":
+                return ("closure", ops, r.get("def", "?"))
             return (r["agg"], ops)
         if k == "repeat":
             return ("repeat", self.term_of_operand(r["o"], depth, at), r["n"])
@@ -652,7 +654,7 @@ def tstr(t):
         return "%s(%s)" % (t[1], ", ".join(tstr(a) for a in t[2]))
     if k == "adt":
         return "%s::%s{%s}" % (t[1], t[2], ", ".join("%s: %s" % (f, tstr(o)) for f, o in zip(t[3], t[4])))
-    if k in ("tuple", "array"):
+    if k in ("tuple", "array", "closure"):
         return "%s(%s)" % (k, ", ".join(tstr(a) for a in t[1]))
     if k == "index":
         return "%s[%s]" % (tstr(t[1]), tstr(t[2]))
